@@ -116,6 +116,10 @@ def run(rep, idx, tier):
 
             def case(member):
                 return ('formula', c.eng.frame_formula(('case', sid, (('const', members[member]),), 0)))
+            # the four members cover every value of the 2-bit mode field (class PinMode(enum.Enum, shape=unsigned(2)))
+            pm = idx.find_class("gpio:PinMode")
+            two_bits = any(k.arg == "shape" and ast.unparse(k.value) == "unsigned(2)" for k in pm.node.keywords)
+            cover = ('formula', dl.f_or(*[case(mem)[1] for mem in MODE_TABLE])) if two_bits and sorted(members.values()) == [0, 1, 2, 3] else None
             for col, tgt in ((0, "pin.o"), (1, "pin.oe"), (2, "self.alt_mode[n]")):
                 ds = c.drivers_of(c.parse(tgt, env))
                 if not ds and col < 2:
@@ -126,7 +130,7 @@ def run(rep, idx, tier):
                     continue
                 table = [(case(mem), MODE_TABLE[mem][col]) for mem in MODE_TABLE]
                 check_dl(rep, "C16.2", c, f"{tgt} per mode: " + ", ".join(f"{m}:{MODE_TABLE[m][col]}" for m in MODE_TABLE),
-                         ds, "0", table, env)
+                         ds, "0", table, env, assume=cover)
 
     # ---- C16.3 set / clr decode ----------------------------------------------------------------
     for which in ("set", "clr"):
